@@ -110,7 +110,8 @@ Definition axis_step (tol : Q) (g : geom) (u : vec3) (s : Q) : res (ax * Z) :=
   | Some j =>
       let sf := (s / sel (g_spac g) j)%Q in
       let st := rne sf in
-      if Qltb tol (Qabs' (sf - inject_Z st)) then Err RT
+      (* a stride that rounds to 0 is refused like a non-integer one (fix D104) *)
+      if (st =? 0) || Qltb tol (Qabs' (sf - inject_Z st)) then Err RT
       else Ok (j, if Qltb (dot u (sel (g_unit g) j)) 0 then - st else st)
   end.
 
